@@ -663,11 +663,11 @@ def from_preset(chk):
             return {f"{zat}_rad": rad, f"{zat}_npt": I.Arr((K,), lambda k: NPTS(T.zi(k)), "int")}
 
         def conv_contract(eng_, f, args, kwargs):
-            calls["conv"].append(([a for a in args if not isinstance(a, I.ClassRef)], dict(kwargs)))
+            calls["conv"].append(framework.bound_arguments(eng_, f, [a for a in args if not isinstance(a, I.ClassRef)], kwargs))
             return I.Arr((K,), lambda k: DEGC(T.zi(k)), "int")
 
         def find_contract(eng_, f, args, kwargs):
-            calls["find"].append(([a for a in args if not isinstance(a, I.ClassRef)], dict(kwargs)))
+            calls["find"].append(framework.bound_arguments(eng_, f, [a for a in args if not isinstance(a, I.ClassRef)], kwargs))
             return I.Arr((S,), lambda i: DSEC(T.zi(i)), "int")
 
         def thunk(eng_, preset=preset, zat=zat, kind=kind):
@@ -722,17 +722,29 @@ def from_preset(chk):
             if kind == "sizes":
                 sz = kw.get("sizes")
                 degs_none = kw.get("degrees", 0) is None
-                good = type(sz).__name__ in ("SymList", "LazySeq") and degs_none
-                chk.add(f"{tag}/post/sizes-are-the-tabulated-size-of-each-sector-repeated-for-its-shells", hy,
-                        z3.And(T.zi(sz.length) == OFFP(K), T.zi(sz.item(OFFP(s0) + t0)) == NPTS(s0)) if good else z3.BoolVal(False), func=fq, meta={"replay": rep})
+                # any sequence will do (list, lazy list, integer array): compared by length and by the entry of the generic shell
+                if type(sz).__name__ in ("SymList", "LazySeq"):
+                    slen, sitem = sz.length, sz.item
+                elif isinstance(sz, I.Arr) and sz.ndim == 1:
+                    slen, sitem = sz.shape[0], sz.fn
+                elif isinstance(sz, list):
+                    slen, sitem = len(sz), None
+                else:
+                    slen, sitem = None, None
+                if slen is None or sitem is None:
+                    chk.undecided.append((f"C05/{tag}/sizes", f"sizes handed to the constructor as {type(sz).__name__}: contract does not fit this code"))
+                else:
+                    chk.add(f"{tag}/post/sizes-are-the-tabulated-size-of-each-sector-repeated-for-its-shells", hy,
+                            z3.And(z3.BoolVal(bool(degs_none)), T.zi(slen) == OFFP(K), T.zi(sitem(OFFP(s0) + t0)) == NPTS(s0)), func=fq, meta={"replay": rep})
             else:
                 dg = kw.get("degrees")
-                okc = len(c["conv"]) == 1 and len(c["find"]) == 1 and c["conv"][0][1].get("method", c["conv"][0][0][1] if len(c["conv"][0][0]) > 1 else None) == "maxdet"
+                okc = len(c["conv"]) == 1 and len(c["find"]) == 1 and c["conv"][0].get("method") == "maxdet" \
+                    and all(isinstance(c["find"][0].get(n_), I.Arr) for n_ in ("radial_points", "r_sectors", "d_sectors")) and isinstance(c["conv"][0].get("sizes"), I.Arr)
                 goals = [z3.BoolVal(bool(okc and isinstance(dg, I.Arr)))]
                 if okc and isinstance(dg, I.Arr):
                     k1, i1 = z3.Int("k1"), z3.Int("i1")
-                    npt_a = c["conv"][0][0][0]
-                    pts_a, rad_a, deg_a = c["find"][0][0][:3]
+                    npt_a = c["conv"][0]["sizes"]
+                    pts_a, rad_a, deg_a = (c["find"][0][n_] for n_ in ("radial_points", "r_sectors", "d_sectors"))
                     goals += [z3.Implies(z3.And(i1 >= 0, i1 < S), z3.And(T.zr(pts_a.fn(i1)) == Rr(i1), T.zi(dg.fn(i1)) == DSEC(i1)))]
                     # HOW the table reaches the sector map (element by element, in table order) is a proof step, not a statement of the property: the
                     # sector map only depends on how many boundaries lie below a node, so e.g. a reversed boundary array gives the same grid
